@@ -650,13 +650,13 @@ class World:
                 return None
             out = []
             for slot, V in self.pool.items():
-                if V is D or slot == src[0] or not (is_qbytes(V) and V.axis is None and V.dtype == D.dtype):
+                if V is D or slot == src[0] or not (is_qbytes(V) and V.axis is None):
                     continue
                 vd = V._data
                 if vd.untyped_storage().data_ptr() != st.data_ptr() or tuple(vd.shape) != tuple(V.shape):
                     continue
                 if froot.get(slot) is not None and froot.get(slot) == droot:
-                    if V.qtype != D.qtype:
+                    if V.qtype != D.qtype or V.dtype != D.dtype:
                         continue
                     Sf = torch.full((n,), float("nan"), dtype=torch.float64)
                     FD = torch.as_strided(Sf, tuple(dd.shape), dd.stride(), dd.storage_offset())
